@@ -299,6 +299,9 @@ impl Link {
     }
 
     fn _load(path: &str) -> Result<Link, Box<dyn std::error::Error>> {
+        #[cfg(yui_verif)]
+        let json = yui_verif_rt::fs::read_to_string(path)?;
+        #[cfg(not(yui_verif))]
         let json = std::fs::read_to_string(path)?;
         let data: Vec<XCode> = serde_json::from_str(&json)?;
         let l = Link::from_pd_code(data);
